@@ -212,6 +212,21 @@ func (fr *Frame) ghostCall(i *ssa.Call, kind string, args []Val, st *State, g Te
 		// the block runs as ordinary code (calls are checked against contracts) but
 		// emits no safety obligations of its own
 		x.runFunc(clo.Fn, nil, clo.Bind, st, g, fr, fr.prefix+"lemma:", false, func(f *Frame) { f.noSafety = true })
+	case "RepoFn":
+		v := i.Call.Args[0]
+		if mi, ok := v.(*ssa.MakeInterface); ok {
+			v = mi.X
+		}
+		ft := fr.term(v, st)
+		var alts []Term
+		for _, cand := range x.eng.candidates(v.Type()) {
+			if len(cand.FreeVars) > 0 {
+				alts = append(alts, Eq(x.fnTag(ft), x.eng.fnID(cand)))
+			} else {
+				alts = append(alts, Eq(ft, x.eng.fnID(cand)))
+			}
+		}
+		fr.regs[i] = TV{T: Or(alts...)}
 	case "SameFloat":
 		fr.regs[i] = TV{T: Eq(x.t(args[0], st), x.t(args[1], st))}
 	case "B2I":
@@ -579,8 +594,16 @@ func (fr *Frame) applyContract(i *ssa.Call, callee *ssa.Function, c *Contract, a
 			// structural recursion over an acyclic tree: every pointer/interface argument
 			// of the recursive call is a proper component of a parameter
 			ok := false
+			rootRank := 0
+			if rc := e.contractOf[x.root]; rc != nil {
+				rootRank = rc.Rank
+			}
 			for _, a := range i.Call.Args {
 				if derivedFromParam(a, 0) {
+					ok = true
+				}
+				// the same node may be handed to a function of lower rank (serialize -> Render)
+				if c.Rank < rootRank && derivedFromParam(a, 1) {
 					ok = true
 				}
 			}
@@ -800,13 +823,44 @@ func (fr *Frame) dynCall(i *ssa.Call, ft Term, args []Val, st *State, g Term) {
 	var sts []*State
 	var rets [][]Val
 	var anyOf []Term
+	open := e.openWorld(i.Call.Value.Type())
 	for _, cand := range cands {
-		is := Eq(ft, e.fnID(cand))
+		var is Term
+		var free []Val
+		if len(cand.FreeVars) > 0 {
+			// a closure: the function value is clo_C(c...) for some captured values c
+			var caps []Term
+			for k, fv := range cand.FreeVars {
+				pt, ok := fv.Type().(*types.Pointer)
+				if !ok {
+					caps = nil
+					break
+				}
+				cs := e.tc.sortOf(pt.Elem())
+				inv := fmt.Sprintf("clo_%d_inv%d", e.fnIDs[cand], k)
+				x.declareOnce(fmt.Sprintf("(declare-fun %s (Int) %s)", inv, cs.Name))
+				c := x.define("cap_"+fv.Name(), mk(cs, inv, ft))
+				caps = append(caps, c)
+				cell := x.newCell("fv_"+fv.Name(), c.Sort)
+				cell.Ghost = true
+				st.cells[cell] = c
+				free = append(free, PV{Cell: cell})
+			}
+			if caps == nil {
+				continue
+			}
+			// values tagged with this closure's code are exactly the images of clo_C
+			is = Eq(x.fnTag(ft), e.fnID(cand))
+			ct := x.closureTerm(cand, caps)
+			x.assume(is, Eq(ft, ct))
+		} else {
+			is = Eq(ft, e.fnID(cand))
+			x.assume(TTrue, Eq(x.fnTag(e.fnID(cand)), IntLit(0)))
+		}
 		anyOf = append(anyOf, is)
 		cg := x.define("dyn", And(g, is))
 		cst := st.clone()
-		// reuse repoCall on a synthetic frame register
-		fr.repoCall(i, cand, args, nil, cst, cg)
+		fr.repoCall(i, cand, args, free, cst, cg)
 		var vals []Val
 		if v, ok := fr.regs[i]; ok {
 			if tup, isT := v.(Tuple); isT {
@@ -820,8 +874,41 @@ func (fr *Frame) dynCall(i *ssa.Call, ft Term, args []Val, st *State, g Term) {
 		sts = append(sts, cst)
 		rets = append(rets, vals)
 	}
-	x.assume(g, Or(anyOf...)) // closed world: only address-taken functions of this type (frame analysis lists them)
-	x.usedAssumptions["closed world for function values of type "+types.TypeString(i.Call.Value.Type(), nil)] = true
+	if open {
+		// open world: any other (user supplied) function - a total function of its arguments
+		var ats []Term
+		okAll := true
+		for _, a := range args {
+			t, ok := x.termOfNoEscape(a, st)
+			if !ok {
+				okAll = false
+			}
+			ats = append(ats, t)
+		}
+		if okAll {
+			og := x.define("dynother", And(g, Not(Or(anyOf...))))
+			res := i.Call.Signature().Results()
+			var vals []Val
+			for r := 0; r < res.Len(); r++ {
+				rs := e.tc.sortOf(res.At(r).Type())
+				name := fmt.Sprintf("userfn_%s_%d", sanitize(types.TypeString(i.Call.Value.Type(), func(p *types.Package) string { return p.Name() })), r)
+				decl := "(declare-fun " + name + " (Int "
+				for _, t := range ats {
+					decl += t.Sort.Name + " "
+				}
+				decl += ") " + rs.Name + ")"
+				x.declareOnce(decl)
+				vals = append(vals, TV{T: mk(rs, name, append([]Term{ft}, ats...)...)})
+			}
+			conds = append(conds, og)
+			sts = append(sts, st.clone())
+			rets = append(rets, vals)
+			x.usedAssumptions["user-supplied "+types.TypeString(i.Call.Value.Type(), nil)+" values are total functions of their arguments (no panic, no side effects)"] = true
+		}
+	} else {
+		x.assume(g, Or(anyOf...)) // closed world: only address-taken functions of this type
+		x.usedAssumptions["closed world for function values of type "+types.TypeString(i.Call.Value.Type(), nil)] = true
+	}
 	*st = *x.mergeStates(sts, conds)
 	n := i.Call.Signature().Results().Len()
 	vals := make([]Val, n)
@@ -837,6 +924,32 @@ func (fr *Frame) dynCall(i *ssa.Call, ft Term, args []Val, st *State, g Term) {
 		}
 	}
 	fr.setResult(i, vals, st)
+}
+
+// closureTerm is the function-value term of closure code c with captured values caps:
+// an injective constructor (ground inverse facts are emitted for every term built).
+func (x *Exec) closureTerm(c *ssa.Function, caps []Term) Term {
+	e := x.eng
+	name := fmt.Sprintf("clo_%d", e.fnIDs[c])
+	decl := "(declare-fun " + name + " ("
+	for _, a := range caps {
+		decl += a.Sort.Name + " "
+	}
+	decl += ") Int)"
+	x.declareOnce(decl)
+	t := mk(SInt, name, caps...)
+	for k, a := range caps {
+		inv := fmt.Sprintf("%s_inv%d", name, k)
+		x.declareOnce(fmt.Sprintf("(declare-fun %s (Int) %s)", inv, a.Sort.Name))
+		x.assume(TTrue, Eq(mk(a.Sort, inv, t), a))
+	}
+	x.assume(TTrue, Eq(x.fnTag(t), e.fnID(c)))
+	return t
+}
+
+func (x *Exec) fnTag(t Term) Term {
+	x.declareOnce("(declare-fun fn_tag (Int) Int)")
+	return mk(SInt, "fn_tag", t)
 }
 
 func (x *Exec) havocResultsSig(sig *types.Signature, what string) []Val {
